@@ -204,6 +204,13 @@ pub const TABLE: &[D] = &[
         t(r#""/""#, 2, "Slash"), r(r#""[a-z]+""#, 2, "Word"), r(r#"b"[\x80-\xFF]+""#, 2, "High"), t(r#""*""#, 2, "Star"),
     ], frags: &["/", "//", "// ab", "// ab\n", "ab", " ", "\n", "*", "x:ff", "x:c3a9", "/ /", "//x:ff"] },
 
+    // one leaf = a match-carrying repetition followed by a non-extendable optional ending (or an alternative that
+    // cannot be extended): after the ending the token is final although the leaf's loop state is still "open"
+    D { name: "OptTail", utf8: true, skips: &[(r#"r"[ ]+""#, 2, "")], pats: &[
+        r(r#""[0-9]+%?""#, 4, "Percent"), r(r#""[a-z]+!?""#, 3, "Word"), r(r#""x+|y""#, 6, "Xy"), r(r#""a+b?""#, 8, "Ab"),
+        r(r##"r"#+;?""##, 5, "Hashes"), t(r#""%""#, 2, "Pct"), t(r#""!""#, 2, "Bang"), t(r#"";""#, 2, "Semi"),
+    ], frags: &["12", "12%", "1%%", "ab", "a", "aab", "abb", "x", "xx", "y", "yy", "xy", "w!", "w!!", "#", "##;", "#;;", " ", "%", "!", ";"] },
+
     D { name: "Borrowed", utf8: true, skips: &[], pats: &[
         rc(r#""[a-z]+""#, 2, Cb::Borrow, "Word"), rc(r#""[0-9]+""#, 2, Cb::Len, "Num"), tc(r#""::""#, 4, Cb::Borrow, "Path"), t(r#"":""#, 2, "Colon"),
         rc(r#"r"\s+""#, 2, Cb::Skip, "Ws"),
